@@ -192,6 +192,18 @@ opnd_t *opnd_make(rng_t *r, const rm_t *val, int kind) {
   snprintf(o->cls, sizeof o->cls, "win%c%s%s%s", kind == PL_WIN_EVEN ? 'E' : 'O', (n % 64) ? "x" : "z", r0 ? "r" : "", o->zero_surround ? "0" : "");
   return o;
 }
+opnd_t *opnd_make_in_parent(const opnd_t *host, int m, int n) {
+  opnd_t *o = calloc(1, sizeof *o);
+  o->kind = host->kind;
+  o->parent = host->parent;
+  o->borrowed_parent = 1;
+  o->r0 = host->r0;
+  o->c0 = host->c0;
+  o->zero_surround = host->zero_surround;
+  o->M = mzd_init_window(o->parent, o->r0, o->c0, o->r0 + m, o->c0 + n);
+  snprintf(o->cls, sizeof o->cls, "%s+", host->cls);
+  return o;
+}
 opnd_t *opnd_wrap(mzd_t *M) {
   opnd_t *o = calloc(1, sizeof *o);
   o->M = M;
@@ -251,7 +263,7 @@ void opnd_free(opnd_t *o) {
   if (!o) return;
   if (o->parent) {
     mzd_free(o->M);
-    mzd_free(o->parent);
+    if (!o->borrowed_parent) mzd_free(o->parent);
   } else if (o->M)
     mzd_free(o->M);
   free(o->snap);
